@@ -161,6 +161,7 @@ def ifelse_panel():
         cases.append(dict(kind='c04_l2', script=['while probe a ${w}', 'emit A', endkw, 'emit Z'], vars={'w': 'false'}, array=[], expected_trace='aZ'))
         cases.append(dict(kind='c04_l2', script=['while probe a ${w}', 'while probe b ${v}', 'emit B', 'v = set false', endkw, 'emit A', 'w = set false', 'end', 'emit Z'], vars={'w': 'true', 'v': 'true'}, array=[],
                           expected_trace='abBbAaZ'))
+        cases.append(dict(kind='c04_l2', script=['for i in ${arr}', 'emit ${i}', endkw.replace('end_while', 'end_for'), 'for i in ${arr}', 'emit ${i}', 'end', 'emit Z'], vars={}, array=['p', 'q', 'r'], expected_trace='pqrpqrZ'))
         cases.append(dict(kind='c04_l2', script=['for i in ${arr}', 'v = set true', 'while probe b ${v}', 'emit B', 'v = set false', endkw, 'end', 'emit Z'], vars={}, array=['p', 'q'], expected_trace='bBbbBbZ'))
     return cases
 
@@ -214,6 +215,7 @@ def main(tier, seed):
     seeds = [seed * 100000 + i for i in range(nprog)]
     chk.job(job_ifelse_steps, 'step/if, elseif, else')
     chk.job(job_while_steps, 'step/while, end_while')
+    chk.job(job_forin_steps, 'step/for, end_for')
     for gi in range(12): chk.job(job_runs, 'L2:programs/%d' % gi, seeds=seeds[gi::12], depth=2 if tier == 'quick' else 3, size=7 if tier == 'quick' else 10)
     chk.bounds = dict(layer1='opener at line 0 followed by <= %d symbolic lines, nesting <= %d, every alias / full-name spelling of every block keyword' % (n - 1, D),
                       layer2='%d generated well-nested programs (if/elseif/else, while, for-in, emit, set), each run for every assignment of its condition variables and array length; array items symbolic' % nprog)
@@ -594,4 +596,84 @@ def job_while_steps(ctx, jr):
             for g, cnd, msg in obs: e.obligations.append(Obligation(g, cnd, 'C04 %s lemma (%d below): %s' % (cmd, below, msg), 'assert', 'oracle'))
             jr.symex_time += time.time() - t0
             res = discharge_known(e, jr, PID, {}, lambda m, o=None, cmd=cmd: dict(kind='lemma', level='while', step=cmd))
+            H.finish_job(jr, e, res)
+
+
+FIM = 'sdk::std::flowcontrol::forin'
+
+
+def job_forin_steps(ctx, jr):
+    """for-in and end_for as single steps: from an arbitrary call-info stack, an arbitrary array of 0..3 symbolic elements and an
+    arbitrary pass counter k of this loop (or no entry for this loop: the first pass): element k exists -> the loop variable is bound
+    to it, the body runs and the counter becomes k+1; otherwise control goes behind the end of the loop and the loop's entry is gone
+    (the next execution of the for line starts at element 0). end_for goes back to the for line and keeps the counter."""
+    from mirsym.harness import NotRecognised
+    from mirsym.models import map_lookup
+    jr.bounds = dict(array='0..3 symbolic elements', pass_counter='0..3 or no entry', call_info_stack='0..1 foreign entries below', claim='one-step lemmas (DESIGN.md 8.20)')
+    CONT, GOTO, ERR = 0, 1, 2
+    SVT = 'types::runtime::StateValue'; SV = ctx.types.enums[SVT]; STRK, LIST, SUB = SV.index('String'), SV.index('List'), SV.index('SubState')
+
+    def goto_is(rv, line): return zand(zeq(rv.d, GOTO), zeq(rv.p[GOTO][1].d, 1), zeq(rv.p[GOTO][1].p[1][0], line)) if GOTO in rv.p else False
+    for cmd in ('for', 'end_for'):
+        for below in (0, 1):
+            e = ctx.engine(unwind=8, max_rec=6); e.int_digits = 2; t0 = time.time()
+            n = e.fresh_int('array.len', 0, 3); items = [H.sym_str(e, 'item%d' % i, 2) for i in range(3)]
+            arr = E(SVT, LIST, {LIST: [V(n, [E(SVT, STRK, {STRK: [x]}) for x in items])]})
+            st = State(True, {}); st.m[(0, 'state')] = M([(True, mk_str('handles'), E(SVT, SUB, {SUB: [M([(True, mk_str('handle:arr'), arr)])]}))])
+            fs = e.fresh_int('F.start', 0, 40); fe = e.fresh_int('F.end', 0, 60); e.assume(fs < fe)
+            Fv = T([fs, fe], FIM + '::ForInMetaInfo')
+            def store(it, meta):
+                st.m[(0, 'ci')] = T([it, meta, S(0, [])], FIM + '::CallInfo')
+                e.run_call(FIM + '::store_call_info', st, [P(0, 'ci'), P(0, 'state')], 'sdk')
+            for b_ in range(below):
+                os_ = e.fresh_int('below.start', 0, 40); oe = e.fresh_int('below.end', 0, 60)
+                e.assume(z3.And(os_ < oe, os_ != fs, os_ != fe, oe != fs, oe != fe))
+                store(e.fresh_int('below.iteration', 0, 3), T([os_, oe], FIM + '::ForInMetaInfo'))
+            running = e.fresh_bool('loop.running') if cmd == 'for' else True
+            k = e.fresh_int('k', 0, 3)
+            # the entry of this loop is on top only when the loop is running; build both stacks and merge by running the store under a guard
+            if cmd == 'end_for': store(k, Fv)
+            else:
+                st_run = st.copy(); st_keep = st
+                st = st_run; store(k, Fv)
+                # merge: state with / without this loop's entry
+                from mirsym.engine import merge_states
+                st_run.g = running; st_keep.g = znot(running)
+                st = merge_states(st_run, st_keep); st.g = True
+            V0 = M([(e.fresh_bool('i.defined'), mk_str('i'), H.sym_str(e, 'i.before', 2)), (True, mk_str('x'), mk_str('keep'))])
+            st.m[(0, 'vars')] = V0; st.m[(0, 'cmds')] = T([M([]), M([])], 'types::command::Commands'); st.m[(0, 'env')] = T([Opaque('out'), Opaque('err'), e.alloc(st, False)], 'types::env::Env')
+            mk = e.fresh_bool('meta.err')
+            e.hooks[FIM + '::get_or_create_forin_meta_info_for_line'] = lambda eng, st1, a, callee: E('std::result::Result', zite(mk, 1, 0), {0: [Fv], 1: [mk_str('no end')]})
+            ty = FIM + ('::ForInCommand' if cmd == 'for' else '::EndForInCommand')
+            f = e.find_method(ty, 'Command', 'run', 'sdk')
+            if f is None: raise NotRecognised('no run impl for ' + ty)
+            line = fs if cmd == 'for' else fe
+            argv = V(3, [mk_str('i'), mk_str('in'), mk_str('handle:arr')]) if cmd == 'for' else V(0, [])
+            ctxv = T([argv, P(0, 'state'), P(0, 'vars'), none(), PV(V(0, [])), P(0, 'cmds'), line, P(0, 'env')], 'types::command::CommandInvocationContext')
+            rs, rv = e.call_fn(f, st, [PV(T([mk_str('std::flowcontrol')], ty)), ctxv])
+            if rs is None: raise Abort('%s never returns' % cmd)
+            obs = []
+            if cmd == 'for':
+                keff = zite(running, k, 0)
+                ok = zor(running, znot(mk))
+                obs.append((zand(rs.g, znot(running), mk), zor(zeq(rv.d, ERR), zeq(rv.d, 3)), 'a loop without end is an error or a crash'))
+                has = zand(ok, keff < n)
+                obs.append((zand(rs.g, has), zeq(rv.d, CONT), 'element k exists: the body runs'))
+                pv = e.read(rs, ('mem', 0, 'vars', []))
+                f_, x_, _ = map_lookup(e, rs, pv, mk_str('i')); fx, xx, _ = map_lookup(e, rs, pv, mk_str('x'))
+                item_k = items[2]
+                for j in (1, 0): item_k = merge(zeq(keff, j), items[j], item_k)
+                obs.append((zand(rs.g, has), zand(f_, str_eq(x_, item_k) if x_ is not POISON else False, fx, str_eq(xx, mk_str('keep'))), 'the loop variable is bound to element k (pass k binds the k-th element, in order); other variables untouched'))
+                obs.append((zand(rs.g, ok, znot(keff < n)), goto_is(rv, fe + 1), 'no element k: control goes behind the end of the loop'))
+                r_ = e.run_call(FIM + '::pop_call_info_for_line', rs, [fs, P(0, 'state'), False], 'sdk')
+                obs.append((zand(rs.g, has), zand(zeq(r_.d, 1), zeq(r_.p[1][0].f[0], keff + 1), deep_eq(r_.p[1][0].f[1], Fv)) if 1 in r_.p else False, 'the pass counter becomes k+1'))
+                obs.append((zand(rs.g, ok, znot(keff < n)), zeq(r_.d, 0), 'a finished loop leaves no entry: its next execution starts at element 0'))
+            else:
+                obs.append((rs.g, goto_is(rv, fs), 'the end of the body goes back to the for line'))
+                r_ = e.run_call(FIM + '::pop_call_info_for_line', rs, [fs, P(0, 'state'), False], 'sdk')
+                obs.append((rs.g, zand(zeq(r_.d, 1), zeq(r_.p[1][0].f[0], k)) if 1 in r_.p else False, 'the pass counter is kept'))
+            for g, cnd, msg in obs: e.obligations.append(Obligation(g, cnd, 'C04 %s lemma (%d below): %s' % (cmd, below, msg), 'assert', 'oracle'))
+            jr.symex_time += time.time() - t0
+            res = discharge_known(e, jr, PID, {}, lambda m, o=None, cmd=cmd: dict(kind='lemma', level='forin', step=cmd))
+            if cmd == 'for': witness(jr, e, 'for lemma: second pass binds the second element', zand(rs.g, running, zeq(k, 1), n >= 2), lambda m, o=None: dict(kind='lemma', level='forin'))
             H.finish_job(jr, e, res)
